@@ -56,13 +56,16 @@ fn check_last(st: &H263State, last: &Option<Slot>, step: usize, what: &str) -> R
 pub fn history_case(g: &mut Gen, cfg: &PicCfg, max_len: usize) -> Verdict {
     let (mode, version) = gen_mode(g, cfg);
     let size = gen_size(g, mode, cfg);
-    let like = match mode {
+    // `like` always describes the size of the current reference picture (predicted pictures must
+    // have its dimensions); it changes when a non-disposable picture of another size is accepted
+    let mut like = match mode {
         Mode::Sorenson => Header::sorenson(version, PicType::I, size, 5),
         Mode::Standard => Header::standard(PicType::I, size, 5),
     };
     let scheme = gen_tr_scheme(g);
     let base_tr = g.byte();
-    let mut st = H263State::new(options(mode, false));
+    let scal = g.bool();
+    let mut st = H263State::new(options_scal(mode, scal));
     let mut last: Option<Slot> = None;
     let mut reference: Option<Slot> = None;
     let n = g.range(2, max_len as i64) as usize;
@@ -75,28 +78,48 @@ pub fn history_case(g: &mut Gen, cfg: &PicCfg, max_len: usize) -> Verdict {
 
     for step in 0..n {
         // choose the step kind; the first picture is usually intra so that histories get going
+        // 0 I, 1 P, 2 D, 3 rejected, 4 clean-up, 5 all-intra P of another size, 6 all-intra D of another size
         let k = if step == 0 && !g.chance(1, 8) {
             0
         } else if mode == Mode::Sorenson {
-            g.weighted(&[2, 5, 5, 2, 1])
+            g.weighted(&[4, 10, 10, 4, 2, 1, 2])
         } else {
-            [0usize, 1, 3, 4][g.weighted(&[2, 6, 2, 1])]
+            [0usize, 1, 3, 4, 5][g.weighted(&[4, 12, 4, 2, 1])]
         };
         let tr = scheme.next(g, step, base_tr, reference.as_ref().map(|s| s.tr), last.as_ref().map(|s| s.tr));
         match k {
             // ---- I picture
-            0 => {
-                kinds_seen.push('I');
-                let mut pic = gen_intra_pic_with(g, cfg, mode, version, size);
+            0 | 5 | 6 => {
+                // an intra picture, or a P / D picture made of intra macroblocks only; the latter
+                // two (and sometimes the former) of another size than the current reference
+                let ptype = match k {
+                    0 => PicType::I,
+                    5 => PicType::P,
+                    _ => PicType::D,
+                };
+                kinds_seen.push(match k {
+                    0 => 'I',
+                    5 => 'P',
+                    _ => 'D',
+                });
+                let this_size = if k != 0 || g.chance(1, 5) { gen_size(g, mode, cfg) } else { like.size };
+                let mut pic = gen_intra_pic_with(g, cfg, mode, version, this_size);
+                pic.hdr.ptype = ptype;
+                if ptype != PicType::I && pic.hdr.plus == PlusForm::Baseline && matches!(this_size, Size::StdCustom(..)) {
+                    pic.hdr.plus = PlusForm::Full;
+                }
+                if this_size.dims() != like.size.dims() {
+                    labels.push(if ptype == PicType::D { "disposable picture of another size" } else { "size change" });
+                }
                 pic.hdr.tr = tr;
                 let bytes = encode_pic(&pic);
                 key = key.rotate_left(9) ^ fnv64(&bytes);
                 if g.want_desc {
-                    trace.push(json!({"step": step, "kind": "I", "tr": tr, "hex": crate::bits::hex(&bytes[..bytes.len().min(600)])}));
+                    trace.push(json!({"step": step, "kind": format!("{:?} (intra macroblocks) {:?}", ptype, this_size), "tr": tr, "hex": crate::bits::hex(&bytes[..bytes.len().min(600)])}));
                 }
                 match decode_bytes(&mut st, &bytes) {
                     Outcome::Ok => {}
-                    o => return fail_with(g, trace, format!("step {}: valid I picture (TR {}) not decoded: {}", step, tr, o.short())),
+                    o => return fail_with(g, trace, format!("step {}: valid {:?} picture of intra macroblocks ({:?}, TR {}) not decoded: {}", step, ptype, this_size, tr, o.short())),
                 }
                 let model = match reconstruct(&pic, None) {
                     Ok(m) => m,
@@ -104,12 +127,17 @@ pub fn history_case(g: &mut Gen, cfg: &PicCfg, max_len: usize) -> Verdict {
                 };
                 let c = match compare_last(&st, &model.expect) {
                     Ok(c) => c,
-                    Err(m) => return fail_with(g, trace, format!("step {} (I, TR {}): {}", step, tr, m)),
+                    Err(m) => return fail_with(g, trace, format!("step {} ({:?}, TR {}): {}", step, ptype, tr, m)),
                 };
-                let slot = Slot { planes: c.decoded, tr, ptype: PicType::I };
+                let slot = Slot { planes: c.decoded, tr, ptype };
                 last = Some(slot.clone());
-                reference = Some(slot);
-                d_seen = false;
+                if ptype != PicType::D {
+                    reference = Some(slot);
+                    like.size = this_size;
+                    d_seen = false;
+                } else {
+                    d_seen = true;
+                }
             }
             // ---- P or D picture
             1 | 2 => {
@@ -248,6 +276,117 @@ fn fail_with(g: &mut Gen, trace: Vec<Value>, msg: String) -> Verdict {
     Verdict::fail(msg)
 }
 
+fn flat_pic(ptype: PicType, tr: u8, dc: Option<u8>) -> Vec<u8> {
+    // 16x16 Sorenson picture: one intra macroblock with every INTRADC = dc, or one not-coded macroblock
+    let mut hdr = Header::sorenson(0, ptype, Size::Custom8(16, 16), 4);
+    hdr.tr = tr;
+    let mb = match dc {
+        Some(v) => {
+            let mut m = Mb::new(MbKind::Intra);
+            for b in 0..6 {
+                m.blocks[b].dc = v;
+            }
+            m
+        }
+        None => Mb::not_coded(),
+    };
+    encode_pic(&Pic { hdr, mbs: vec![mb], trailing_zero_bits: 0 })
+}
+
+fn flat_is(st: &H263State, v: u8, tr: u8, ty: &str) -> Result<(), String> {
+    let lp = last_picture(st).ok_or("no most-recent picture")?;
+    if lp.tr != tr as u16 || lp.ptype != ty {
+        return Err(format!("most-recent picture is TR {} {}, expected TR {} {}", lp.tr, lp.ptype, tr, ty));
+    }
+    if lp.planes.y.iter().any(|s| *s != v) || lp.planes.cb.iter().any(|s| *s != v) || lp.planes.cr.iter().any(|s| *s != v) {
+        return Err(format!("most-recent picture (TR {} {}) has first luma sample {}, expected a flat {}", tr, ty, lp.planes.y[0], v));
+    }
+    Ok(())
+}
+
+/// item = temporal reference of the reference picture; inner = every temporal reference of the
+/// disposable picture: I(a) D(b) [clean-up] P(not coded) must give a copy of the I picture.
+fn tr_pair_item(i: u64, acc: &mut Acc) {
+    let tr_ref = i as u8;
+    for tr_d in 0..=255u8 {
+        let mut st = H263State::new(options(Mode::Sorenson, tr_d % 2 == 1));
+        let run = |st: &mut H263State| -> Result<(), String> {
+            let ok = |o: Outcome, what: &str| -> Result<(), String> {
+                if o.is_ok() {
+                    Ok(())
+                } else {
+                    Err(format!("{} not decoded: {}", what, o.short()))
+                }
+            };
+            ok(decode_bytes(st, &flat_pic(PicType::I, tr_ref, Some(100))), "I picture")?;
+            flat_is(st, 100, tr_ref, "IFrame")?;
+            ok(decode_bytes(st, &flat_pic(PicType::D, tr_d, Some(200))), "disposable picture")?;
+            flat_is(st, 200, tr_d, "DisposablePFrame")?;
+            if tr_d % 3 == 0 {
+                st.cleanup_buffers();
+            }
+            ok(decode_bytes(st, &flat_pic(PicType::P, tr_d.wrapping_add(1), None)), "P picture")?;
+            flat_is(st, 100, tr_d.wrapping_add(1), "PFrame").map_err(|m| format!("P after disposable picture must copy the reference (flat 100): {}", m))?;
+            ok(decode_bytes(st, &flat_pic(PicType::D, tr_ref, None)), "second disposable picture")?;
+            flat_is(st, 100, tr_ref, "DisposablePFrame")
+        };
+        acc.count(true);
+        if let Err(m) = guard(|| run(&mut st)).unwrap_or_else(|p| Err(format!("panic: {}", p))) {
+            acc.fail(json!({"kind":"params","tr_ref":tr_ref,"tr_d":tr_d}), format!("reference TR {}, disposable TR {}: {}", tr_ref, tr_d, m));
+            return;
+        }
+    }
+    if i == 255 {
+        acc.sample(|| json!({"history": "I(TR a, flat 100)  D(TR b, flat 200)  [clean-up]  P(TR b+1, not coded)  D(TR a, not coded)", "a": tr_ref, "b": "0..=255"}));
+    }
+}
+
+/// A reference picture followed by a very long run of disposable pictures (more than 2^16), with
+/// clean-up calls in between; the reference must survive, and the P picture after the run must copy it.
+fn long_run_item(i: u64, n: usize, acc: &mut Acc) {
+    let mut st = H263State::new(options(Mode::Sorenson, i % 2 == 1));
+    let first_tr = (i as u8).wrapping_mul(77);
+    let mut run = || -> Result<(), String> {
+        if !decode_bytes(&mut st, &flat_pic(if i % 2 == 0 { PicType::I } else { PicType::I }, first_tr, Some(100))).is_ok() {
+            return Err("I picture not decoded".into());
+        }
+        if i % 3 == 1 {
+            // make the reference a P picture
+            if !decode_bytes(&mut st, &flat_pic(PicType::P, first_tr.wrapping_add(1), None)).is_ok() {
+                return Err("P picture not decoded".into());
+            }
+        }
+        for k in 0..n {
+            let tr = (k as u8).wrapping_add(first_tr).wrapping_add(2);
+            let (bytes, want) = if k % 2 == 0 { (flat_pic(PicType::D, tr, Some(200)), 200u8) } else { (flat_pic(PicType::D, tr, None), 100u8) };
+            let o = decode_bytes(&mut st, &bytes);
+            if !o.is_ok() {
+                return Err(format!("disposable picture #{} not decoded: {}", k + 1, o.short()));
+            }
+            if k % 997 == 0 || k + 300 > 65536 && k < 65536 + 300 {
+                flat_is(&st, want, tr, "DisposablePFrame").map_err(|m| format!("after disposable picture #{}: {}", k + 1, m))?;
+            }
+            if k % 1000 == 999 {
+                st.cleanup_buffers();
+            }
+        }
+        let o = decode_bytes(&mut st, &flat_pic(PicType::P, 9, None));
+        if !o.is_ok() {
+            return Err(format!("P picture after {} disposable pictures not decoded: {}", n, o.short()));
+        }
+        flat_is(&st, 100, 9, "PFrame").map_err(|m| format!("P picture after {} disposable pictures must copy the reference: {}", n, m))
+    };
+    acc.count_n(n as u64 + 2, 2);
+    match guard(|| run()) {
+        Ok(Ok(())) => {}
+        Ok(Err(m)) => acc.fail(json!({"kind":"params","long_run":i,"n":n}), m),
+        Err(p) => acc.fail(json!({"kind":"params","long_run":i,"n":n}), format!("panic: {}", p)),
+    }
+    if i == 0 {
+        acc.sample(|| json!({"history": format!("I, {} disposable pictures (alternating intra / not coded, clean-up every 1000), P not coded", n)}));
+    }
+}
+
 pub fn cfg_for(tier: Tier) -> PicCfg {
     match tier {
         Tier::Quick => PicCfg {
@@ -271,6 +410,9 @@ pub fn run(ctx: &Ctx) -> i32 {
     let cfg = cfg_for(ctx.tier);
     let mut reports = vec![super::regression_suite(ctx)];
     let (cases, len) = ctx.tier.pick((60_000u64, 12usize), (500_000u64, 40usize));
+    reports.push(exhaustive_suite(ctx, "all_temporal_reference_pairs", 256, &tr_pair_item));
+    let (runs, n) = ctx.tier.pick((3u64, 66_000usize), (12u64, 140_000usize));
+    reports.push(exhaustive_suite(ctx, "long_disposable_runs", runs, &move |i, acc| long_run_item(i, n, acc)));
     reports.push(tape_suite(ctx, "reference_histories", cases, 12_000, &move |g| history_case(g, &cfg, len)));
     finish(
         ctx,
@@ -285,7 +427,21 @@ pub fn run(ctx: &Ctx) -> i32 {
 }
 
 pub fn replay(suite: &str, case: &Value) -> Option<Verdict> {
+    let from_acc = |acc: Acc| match acc.failure {
+        Some((_, _, m, _)) => Verdict::fail(m),
+        None => Verdict::pass(true, 0),
+    };
     match suite {
+        "all_temporal_reference_pairs" => {
+            let mut acc = Acc::default();
+            tr_pair_item(case["tr_ref"].as_u64()?, &mut acc);
+            Some(from_acc(acc))
+        }
+        "long_disposable_runs" => {
+            let mut acc = Acc::default();
+            long_run_item(case["long_run"].as_u64()?, case["n"].as_u64()? as usize, &mut acc);
+            Some(from_acc(acc))
+        }
         "reference_histories" => {
             let tape = super::tape_of(case)?;
             let tier = if case["tier"].as_str() == Some("thorough") { Tier::Thorough } else { Tier::Quick };
